@@ -497,9 +497,95 @@ PROFILES = {
 }
 
 
+def gen_stragglers(seed, params=None):
+    """C17: threads that keep calling builder methods while / after the
+    function the builder was passed to returns."""
+    rng = random.Random(seed)
+    funcs = {
+        'Fz': {'kind': 'file', 'name': 'nFz', 'variants': [
+            [['w', 'once']]]},
+        'SZ': {'kind': 'sub', 'name': 'nSZ', 'variants': [
+            [['q', 'read_text', 'z1', 'HASH']]]},
+    }
+    init = [['write', 'z0', 'zin0'], ['write', 'z1', 'zin1'],
+            ['write', 'zz/f', 'zin2'], ['write', 'x0', 'in0']]
+    counter = [0]
+
+    def sbody():
+        body = []
+        for _ in range(rng.randint(1, 3)):
+            r = rng.random()
+            counter[0] += 1
+            if r < 0.6:
+                kind = rng.choice(['exists', 'read_text', 'declare_read',
+                                   'list_dir', 'is_file', 'get_size',
+                                   'walk', 'read_binary', 'is_dir'])
+                rel = 'zz' if kind in ('list_dir', 'walk', 'is_dir') else \
+                    rng.choice(['z0', 'z1'])
+                body.append(['q', kind, rel, rng.choice(['METADATA',
+                                                         'HASH'])])
+            elif r < 0.8:
+                body.append(['sb', 'SZ', [counter[0]], {}])
+            else:
+                body.append(['bf', 'zo%d' % counter[0], 'Fz', [], {},
+                             'METADATA'])
+        return body
+
+    def tail():
+        return [['q', rng.choice(['exists', 'is_file', 'read_text']), 'x0',
+                 'METADATA'] for _ in range(rng.randint(0, 3))]
+
+    root = []
+    n_owner = rng.randint(1, 2)
+    for k in range(n_owner):
+        r = rng.random()
+        body = tail() + [['straggle', sbody(), 't%d' % k]] + tail()
+        if r < 0.45:
+            fid = 'SO%d' % k
+            funcs[fid] = {'kind': 'sub', 'name': 'n' + fid,
+                          'variants': [body]}
+            root.append(['sb', fid, [], {}, True])
+        elif r < 0.8:
+            fid = 'FO%d' % k
+            pos = rng.randint(0, len(body))
+            body.insert(pos, ['w', 'once'])
+            if rng.random() < 0.2:
+                body.append(['raise', 'UserError'])
+            funcs[fid] = {'kind': 'file', 'name': 'n' + fid,
+                          'variants': [body]}
+            root.append(['bf', 'o%d' % k, fid, [], {}, 'METADATA', True])
+        else:
+            root.extend(body)
+    root.extend(tail())
+    steps = []
+    for b in range(rng.randint(2, 3)):
+        st = {'op': 'build', 'root': 0, 'versions': {}, 'tags': ['C17']}
+        if rng.random() < 0.85:
+            st['sched'] = gen_sched(rng, 2)
+            if st['sched']['policy'] == 'sweep':
+                st['sched']['thread'] = rng.choice([0, 0, 1, 2])
+                st['sched']['at'] = rng.randint(0, 120)
+        steps.append(st)
+        if rng.random() < 0.75:
+            steps.append({'op': 'mutate', 'muts': [
+                ['write', rng.choice(['z0', 'z1', 'zz/f', 'zz/g']),
+                 'zchg%d' % b]]})
+    if steps[-1]['op'] != 'build':
+        steps.append({'op': 'build', 'root': 0, 'versions': {},
+                      'tags': ['C17']})
+    return {
+        'profile': 'stragglers', 'seed': seed,
+        'config': {'cache_rel': '../cache.gz', 'build_name': 'B',
+                   'listdir_seed': rng.randrange(1 << 30)},
+        'init': init, 'funcs': funcs, 'roots': [root], 'steps': steps,
+    }
+
+
 def generate(profile, seed, params=None):
     if profile == 'threads':
         return gen_threads(seed, params)
+    if profile == 'stragglers':
+        return gen_stragglers(seed, params)
     p = dict(PROFILES.get(profile, {}))
     if params:
         p.update(params)
